@@ -268,7 +268,10 @@ func (s *Session) ProbeStandalone(ms int) string {
 	f := filepath.Join(scratchDir(), fmt.Sprintf("probe%d.smt2", n))
 	os.WriteFile(f, []byte(s.Dump()+"(check-sat)\n"), 0o644)
 	defer os.Remove(f)
-	out, _ := exec.Command("z3-new", fmt.Sprintf("-t:%d", ms), f).Output()
+	// hard limit as well: the soft (per check-sat) limit is not honoured inside some preprocessing steps
+	ctx, cancel := context.WithTimeout(context.Background(), time.Duration(ms+1500)*time.Millisecond)
+	defer cancel()
+	out, _ := exec.CommandContext(ctx, "z3-new", fmt.Sprintf("-t:%d", ms), "-T:2", f).Output()
 	first := strings.TrimSpace(strings.SplitN(string(out), "\n", 2)[0])
 	if first == "sat" || first == "unsat" {
 		return first
